@@ -1,29 +1,47 @@
 #!/usr/bin/env python3
-"""Fail-closed translation of a FOLD FRAGMENT of Python into Gallina (coq/gen/Loops.v).
+"""Fail-closed translation of a FOLD FRAGMENT and a WHILE FRAGMENT of Python into Gallina (coq/gen/Loops.v).
 
-   Accepted shape of a function (anything else is refused with a message naming the construct):
-     [assert len(a) == len(b)]*                       -> conjuncts of py_<f>_pre (the function is meaningful under it; Python raises AssertionError otherwise)
+   A. FOLD FRAGMENT (functions / methods with ONE `for` loop, or loop-free).  Accepted shape (anything else is refused with a message naming
+      the construct):
+     [assert <cond>]*                                 -> conjuncts of py_<f>_pre; `assert len(a) == len(b)` also records the equal length
+     [if <cond>: <parameter> = <expr>]*               -> parameter normalisations (the application of defaults), shadowing lets in front;
+                                                         an `Optional pair = None` parameter becomes a pair by `if p is None: p = (a, b)`
      [if <cond>: return <expr>]*                      -> guards in front of everything else
-     [acc = [] | n = <expr of parameters>]*           -> accumulators (state of the fold, in this order)
+     [acc = [] | n = <expr of parameters> | acc = [c for i in range(len(l))]]*     -> accumulators (state of the fold, in this order)
      ONE loop, optionally wrapped in `if <cond>:` without else:
          for x in <list parameter>                                  -> fold_left over the list
-         for i in range(len(l)) / range(0, len(l)) / range(len(l) - k) / range(0, len(l) - k)
-                                                                    -> fold_left over seq 0 (length l - k), i : nat
-         for i in range(<e>) with <e> an integer expression of the parameters
-                                                                    -> fold_left over seq 0 (Z.to_nat e), i : nat
-       body: optional first statement `if <cond>: break` or `if <cond>: return <expr>` (a `stopped` flag / an `option` result in the
-             state; once set the remaining iterations leave the state alone), then straight-line code: `acc.append(e)`, `n += e`,
-             `n -= e`, re-assignment of a scalar accumulator, fresh temporaries, if/elif/else, `continue` only as the LAST statement
-             of a path through the body (where it is a no-op)
-     [straight-line post-processing] return <expr of accumulators and parameters>
-   plus the one-liner `return list(map(lambda x: <expr>, <list parameter>))` and calls of already translated functions.
+         for i in range(len(l)) / range(0, len(l)) / range(len(l) - k) / range(0, len(l) - k)    -> fold_left over seq 0 (length l - k), i : nat
+         for i in range(<e>)                                        -> fold_left over seq 0 (Z.to_nat e), i : nat
+         for i in range(<a>, <b>) / range(*<pair>)                  -> fold_left over map (fun k => a + k) (seq 0 (b - a)), i : Z
+         for i in range(<a>, <b>, -1)                               -> fold_left over map (fun k => a - k) (seq 0 (a - b)), i : Z
+       body: straight-line code: `acc.append(e)`, `n += e`, `n -= e`, re-assignment of a scalar accumulator, `acc[i] = v` on a list accumulator
+             at an index in range by construction, fresh temporaries, if/elif/else; among the TOP-LEVEL statements of the body also
+             `if <cond>: break` (a `stopped` flag in the state), `if <cond>: return <expr>` (an `option` result in the state) and
+             `if <cond>: continue`; `continue` elsewhere only as the LAST statement of a path through the body (where it is a no-op)
+     [straight-line post-processing] return <expr>  |  raise ... (after a loop that returns from inside: py_<f>_pre says that it does)
+   plus the one-liner `return list(map(lambda x: <expr>, <list parameter>))`.
+   Expressions: integers, pairs, lists of them; + - * comparisons (chained), and / or / not (short-circuit respected in the conditions),
+     min max abs, len(l), l1 + l2, [e1, ...], `x in l` / `x not in l` and `l.index(x)` for integer lists, `p is None`, float(x) / float(y)
+     (an exact rational), calls of already translated functions and methods (their py_<g>_pre becomes a condition).
+   Methods: `self.<a>.<b>` reads and attribute reads of object parameters are parameters of the generated function when DECLARED in TARGETS;
+     any other attribute read, and every attribute write, is refused.  Default arguments (integer literals, None for an optional pair): the
+     generated py_<f> has all parameters, py_<f>_dflt applies the defaults.
    List indexing: `l[i + c]` with i the loop index is translated to `nth (i + c) l dflt` only when it is in range BY CONSTRUCTION:
      under range(len(m) - k) with 0 <= c <= k and l = m or `assert len(l) == len(m)`.
    Every other subscript of a list is translated to Python's indexing with wrap-around, `py_index l e dflt`, and the condition
-   -len(l) <= e < len(l) is added to py_<f>_pre (for a subscript inside the loop: for every iteration, whatever the branch taken;
-   this is stronger than what Python needs, never weaker).  Under py_<f>_pre no IndexError / AssertionError is possible.
+   -len(l) <= e < len(l) is added to py_<f>_pre, branch-sensitively (for a subscript inside the loop: for every iteration; this is stronger
+   than what Python needs when the loop exits early, never weaker).  Under py_<f>_pre no exception is possible.
    `math.inf` / `-math.inf` as a tuple component is translated to an extra integer parameter `inf_k` of the function (the bridge
    lemma has to hold for EVERY value of it, i.e. the result may not depend on it); it is refused anywhere else.
+
+   B. WHILE FRAGMENT (class WFn): functions with `while` loops, translated in CHECKED form.  The result is a `py_run`: py_Done v,
+      py_OutOfFuel, or py_Raises k as soon as a subscript is out of range (k = 1), an assert fails (3), a float division has a zero
+      divisor (4), .index() finds nothing (5).  Every `while <cond>:` becomes `Fixpoint py_<f>_loop<n> ... (fuel_ : nat) (st_ : S) : py_run S`
+      whose state is the tuple of ALL local variables defined so far; the generated function takes the fuel as its first parameter (the
+      bridge lemma chooses it).  Loop body: assignments (also to temporaries), += / -=, append, `l[i] = v` (checked), assert, if/elif/else,
+      an optional FIRST statement `if <cond>: break`; no continue, no return, no nested loop.  Around the loops: assignments, asserts,
+      if/elif/else (with returns), logging-only ifs are dropped, several loops in sequence are allowed.
+
    Integers are Z, pairs are Z * Z, lists are `list`; operators are printed by name (no dependence on notation scopes)."""
 import ast, sys, os
 sys.argv = sys.argv[:]            # the two imported translators read argv[1] as the repository
@@ -32,12 +50,20 @@ import translate_prims as P
 from translate_extra import Refuse, refuse, strip, dotted, coq_ident, zlit
 REPO = X.REPO
 
-COQT = {"Z": "Z", "bool": "bool", "ZZ": "(Z * Z)", "LZ": "(list Z)", "LZZ": "(list (Z * Z))", "idx": "nat"}
+COQT = {"Z": "Z", "bool": "bool", "ZZ": "(Z * Z)", "LZ": "(list Z)", "LZZ": "(list (Z * Z))", "idx": "nat", "Q": "Q", "OZZ": "(option (Z * Z))"}
 ELEM = {"LZ": "Z", "LZZ": "ZZ"}
 LISTOF = {"Z": "LZ", "ZZ": "LZZ"}
 DFLT = {"Z": "(0)%Z", "ZZ": "((0)%Z, (0)%Z)"}
 SUPPORT = ["Definition py_index {A} (l:list A) (i:Z) (d:A) : A := nth (Z.to_nat (if Z.ltb i 0 then Z.add (Z.of_nat (length l)) i else i)) l d.",
-           "Definition py_index_ok {A} (l:list A) (i:Z) : bool := andb (Z.leb (Z.opp (Z.of_nat (length l))) i) (Z.ltb i (Z.of_nat (length l)))."]
+           "Definition py_index_ok {A} (l:list A) (i:Z) : bool := andb (Z.leb (Z.opp (Z.of_nat (length l))) i) (Z.ltb i (Z.of_nat (length l))).",
+           "(* l[i] = v *)",
+           "Definition py_set {A} (l:list A) (i:Z) (v:A) : list A := let k := Z.to_nat (if Z.ltb i 0 then Z.add (Z.of_nat (length l)) i else i) in app (firstn k l) (cons v (skipn (Datatypes.S k) l)).",
+           "(* l.index(x): position of the first occurrence (ValueError when there is none: condition existsb (Z.eqb x) l) *)",
+           "Fixpoint py_list_index (l:list Z) (x:Z) : Z := match l with nil => (0)%Z | cons y t => if Z.eqb y x then (0)%Z else Z.add (1)%Z (py_list_index t x) end.",
+           "(* outcome of code with a `while` loop: a value, fuel exhausted, or an exception class (1 IndexError, 3 AssertionError, 4 ZeroDivisionError, 5 ValueError) *)",
+           "Inductive py_run (S:Type) : Type := py_Done (s:S) | py_OutOfFuel | py_Raises (k:N).",
+           "Arguments py_Done {S} s. Arguments py_OutOfFuel {S}. Arguments py_Raises {S} k.",
+           "Definition py_bind {S T} (r:py_run S) (f:S -> py_run T) : py_run T := match r with py_Done s => f s | py_OutOfFuel => py_OutOfFuel | py_Raises k => py_Raises k end."]
 
 
 class LE(X.Tr):
@@ -50,9 +76,31 @@ class LE(X.Tr):
         self.cur = []                       # index / assert conditions collected for the code being translated (coq bools), branch-sensitive
         self.in_loop = False
         self.locals = set()                 # temporaries and accumulators: no collected condition may mention them
+        self.codes = {}                     # condition text -> exception class (default 1 = IndexError)
         self.infs = []                      # names of the integer parameters standing for +-math.inf
+    def add(self, cond, code=1):
+        self.cur.append(cond); self.codes.setdefault(cond, code)
+    def take(self):
+        """the conditions collected since the last take(): [(cond, code)] without repetitions"""
+        out = []
+        for c in self.cur:
+            if c != "true" and c not in [x for x, _ in out]: out.append((c, self.codes.get(c, 1)))
+        self.cur = []
+        return out
+    def sub(self, f):
+        """translate with a private condition list -> (result, conjunction, code)"""
+        saved = self.cur; self.cur = []
+        r = f(); mine = self.take(); self.cur = saved
+        codes = set(k for _, k in mine)
+        if len(codes) > 1: raise Refuse("conditions of different exception classes inside one short-circuit / conditional expression")
+        return r, conj([c for c, _ in mine]), (codes.pop() if codes else 1)
     def same_length(self, a, b):
-        return a == b or any(a in s and b in s for s in self.samelen)
+        cl = {a}; grown = True
+        while grown:
+            grown = False
+            for s_ in self.samelen:
+                if cl & s_ and not s_ <= cl: cl |= s_; grown = True
+        return b in cl
     def index_by_construction(self, lst, idx):
         """(nat expression) when lst[idx] is in range by construction, else None"""
         lp = self.loop
@@ -81,7 +129,7 @@ class LE(X.Tr):
                     if nat is not None: return ("(nth %s %s %s)" % (nat, v, DFLT[et]), et)
                 i, ti = self.expr(n.slice)
                 if ti != "Z": refuse(n, "list index is not an integer")
-                self.cur.append("(py_index_ok %s %s)" % (v, i))
+                self.add("(py_index_ok %s %s)" % (v, i), 1)
                 return ("(py_index %s %s %s)" % (v, i, DFLT[et]), et)
             return X.Tr.expr(self, n)
         if isinstance(n, ast.Tuple):
@@ -109,17 +157,51 @@ class LE(X.Tr):
                 if tb != ta: refuse(n, "concatenation of lists of different type")
                 return ("(app %s %s)" % (a, b), ta)
         if isinstance(n, ast.Call) and isinstance(n.func, ast.Name) and n.func.id in self.known and not n.keywords:
-            cname, ptypes, rt, extra = self.known[n.func.id]
-            if len(n.args) != len(ptypes): refuse(n, "call with another number of arguments (defaults are not modelled)")
-            args = []
-            for a, want in zip(n.args, ptypes):
-                c, t = self.expr(a)
-                if t != want: refuse(n, "argument of type %s where %s is expected" % (t, want))
-                args.append(c)
-            ex = []
-            for _ in range(extra):
-                nm = "inf_%d" % len(self.infs); self.infs.append(nm); ex.append(nm)
-            return ("(%s %s)" % (cname, " ".join(ex + args)), rt)
+            return self.call(n, n.func.id)
+        if isinstance(n, ast.BoolOp):
+            # short-circuit: the conditions of a later operand are needed only when the earlier ones do not decide
+            f = "andb" if isinstance(n.op, ast.And) else "orb"
+            acc = None
+            for v in n.values:
+                (p, t), c, k = self.sub(lambda v=v: self.expr(v))
+                if t != "bool": refuse(n, "and/or on non-bool (truthiness is not modelled)")
+                if c != "true":
+                    self.add(c if acc is None else ("(if %s then %s else true)" % (acc, c) if f == "andb" else "(if %s then true else %s)" % (acc, c)), k)
+                acc = p if acc is None else "(%s %s %s)" % (f, acc, p)
+            return (acc, "bool")
+        if isinstance(n, ast.Compare) and len(n.ops) == 1 and isinstance(n.ops[0], (ast.In, ast.NotIn)):
+            a, ta = self.expr(n.left); l, tl = self.expr(n.comparators[0])
+            if ta != "Z" or tl != "LZ": refuse(n, "membership test other than <integer> in <list of integers>")
+            c = "(existsb (Z.eqb %s) %s)" % (a, l)
+            return ("(negb %s)" % c if isinstance(n.ops[0], ast.NotIn) else c, "bool")
+        if isinstance(n, ast.Compare) and len(n.ops) == 1 and isinstance(n.ops[0], (ast.Is, ast.IsNot)) and isinstance(n.comparators[0], ast.Constant) and n.comparators[0].value is None:
+            a, ta = self.expr(n.left)
+            if ta != "OZZ": refuse(n, "`is None` on something that is not an optional pair parameter")
+            c = "(match %s with None => true | Some _ => false end)" % a
+            return ("(negb %s)" % c if isinstance(n.ops[0], ast.IsNot) else c, "bool")
+        if isinstance(n, ast.Call) and isinstance(n.func, ast.Attribute) and n.func.attr == "index" and len(n.args) == 1 and not n.keywords:
+            l, tl = self.expr(n.func.value); a, ta = self.expr(n.args[0])
+            if tl != "LZ" or ta != "Z": refuse(n, ".index() other than <list of integers>.index(<integer>)")
+            self.add("(existsb (Z.eqb %s) %s)" % (a, l), 5)
+            return ("(py_list_index %s %s)" % (l, a), "Z")
+        if isinstance(n, ast.ListComp):
+            # [c for i in range(len(l))] with c not mentioning i: a constant list of the length of l
+            g = n.generators
+            if len(g) != 1 or g[0].ifs or g[0].is_async or not isinstance(g[0].target, ast.Name): refuse(n, "list comprehension with several generators / conditions")
+            it = g[0].iter
+            if not (isinstance(it, ast.Call) and dotted(it.func) == "range" and len(it.args) == 1 and not it.keywords and isinstance(it.args[0], ast.Call) and dotted(it.args[0].func) == "len" and len(it.args[0].args) == 1):
+                refuse(n, "list comprehension over something other than range(len(l))")
+            if any(isinstance(x, ast.Name) and x.id == g[0].target.id for x in ast.walk(n.elt)): refuse(n, "list comprehension whose element depends on the index")
+            l, tl = self.expr(it.args[0].args[0]); e, te = self.expr(n.elt)
+            if tl not in ELEM or te not in LISTOF: refuse(n, "list comprehension of unsupported type")
+            return ("(repeat %s (length %s))" % (e, l), LISTOF[te])
+        if isinstance(n, ast.BinOp) and isinstance(n.op, ast.Div):
+            a, ta = self.expr(n.left); b, tb = self.expr(n.right)
+            if ta != "Q" or tb != "Q": refuse(n, "division other than float(...) / float(...)")
+            self.add("(negb (Qeq_bool %s (inject_Z (0)%%Z)))" % b, 4)
+            return ("(Qdiv %s %s)" % (a, b), "Q")
+        if isinstance(n, ast.Call) and isinstance(n.func, ast.Attribute) and dotted(n.func) in self.known and not n.keywords:
+            return self.call(n, dotted(n.func))
         if isinstance(n, ast.Compare):
             terms = [n.left] + n.comparators; cs = []
             for x, op, y in zip(terms, n.ops, terms[1:]):
@@ -136,6 +218,24 @@ class LE(X.Tr):
         return X.Tr.expr(self, n)
 
 
+    def call(self, n, key):
+        cname, ptypes, rt, extra = self.known[key][:4]
+        selfargs = self.known[key][4] if len(self.known[key]) > 4 else []
+        prename = self.known[key][5] if len(self.known[key]) > 5 else None
+        if len(n.args) != len(ptypes): refuse(n, "call with another number of arguments (defaults are not modelled)")
+        args = []
+        for a, want in zip(n.args, ptypes):
+            c, t = self.expr(a)
+            if t != want: refuse(n, "argument of type %s where %s is expected" % (t, want))
+            args.append(c)
+        ex = []
+        for _ in range(extra):
+            nm = "inf_%d" % len(self.infs); self.infs.append(nm); ex.append(nm)
+        for sa in selfargs:
+            if sa not in [v[0] for v in self.attrs.values()]: refuse(n, "call of a method that reads self.%s, which the caller does not declare" % sa)
+        allargs = " ".join(ex + list(selfargs) + args)
+        if prename: self.add("(%s %s)" % (prename, allargs), 1)
+        return ("(%s %s)" % (cname, allargs), rt)
     def branches(self, c, fa, fb):
         """translate the two branches of `if c` with their own condition lists; the conditions become (if c then .. else ..)"""
         saved = self.cur
@@ -155,8 +255,10 @@ class LE(X.Tr):
             return self.expr(s.value)
         if isinstance(s, ast.Assign) and len(s.targets) == 1 and isinstance(s.targets[0], ast.Name):
             v, t = self.expr(s.value); name = s.targets[0].id
-            if name in self.env: refuse(s, "re-assignment")
-            saved = dict(self.env); self.env[name] = (coq_ident(name), t); self.locals.add(name)
+            if name in self.env and (self.env[name][1] != t or t in ELEM or self.env[name][0] != coq_ident(name)): refuse(s, "re-assignment of a name with another type / of a list / of the loop variable")
+            saved = dict(self.env)
+            if name not in self.env: self.locals.add(name)
+            self.env[name] = (coq_ident(name), t)
             body, tb = self.block(rest); self.env = saved
             return ("(let %s := %s in %s)" % (coq_ident(name), v, body), tb)
         if isinstance(s, ast.If):
@@ -186,16 +288,48 @@ def conj(conds):
     return acc
 
 
+def make_sig(fn, spec):
+    """spec: dict(params=[type | {attribute: type}], self={dotted attribute: type})  ->  python parameter names, [(coq name, type)], env, attrs, defaults"""
+    a = fn.args
+    if a.vararg or a.kwarg or a.kwonlyargs or a.posonlyargs: refuse(fn, "signature with *args / **kwargs / keyword-only parameters")
+    for d in fn.decorator_list:
+        if dotted(d) != "staticmethod": refuse(fn, "decorated function")
+    names = [x.arg for x in a.args]
+    coqparams = []; env = {}; attrs = {}
+    if "self" in spec:
+        if not names or names[0] != "self": refuse(fn, "method without self")
+        names = names[1:]
+        for path, t in spec["self"].items():
+            cn = "self_" + path.replace(".", "_"); coqparams.append((cn, t)); attrs["self." + path] = (cn, t)
+    elif names and names[0] == "self": refuse(fn, "method (reads of self are not declared for it)")
+    if len(names) != len(spec["params"]): refuse(fn, "signature changed (expected %d parameters)" % len(spec["params"]))
+    plain = []
+    for nm, t in zip(names, spec["params"]):
+        if isinstance(t, dict):
+            for at, tt in t.items():
+                cn = "%s_%s" % (nm, at); coqparams.append((cn, tt)); attrs["%s.%s" % (nm, at)] = (cn, tt)
+        else:
+            coqparams.append((coq_ident(nm), t)); env[nm] = (coq_ident(nm), t); plain.append(nm)
+    # defaults: literals only; they are applied by the wrapper py_<f>_dflt
+    defaults = []
+    nd = len(a.defaults)
+    for nm, d in zip([x.arg for x in a.args][len(a.args) - nd:], a.defaults):
+        if nm not in env: refuse(fn, "default value of an object parameter")
+        t = env[nm][1]
+        if isinstance(d, ast.Constant) and d.value is None and t == "OZZ": defaults.append((nm, "None"))
+        elif isinstance(d, ast.UnaryOp) and isinstance(d.op, ast.USub) and isinstance(d.operand, ast.Constant) and isinstance(d.operand.value, int) and t == "Z": defaults.append((nm, zlit(-d.operand.value)))
+        elif isinstance(d, ast.Constant) and isinstance(d.value, int) and not isinstance(d.value, bool) and t == "Z": defaults.append((nm, zlit(d.value)))
+        else: refuse(fn, "default value that is not an integer literal / None for an optional pair")
+    return plain, coqparams, env, attrs, defaults
+
+
 class Fold:
-    def __init__(self, fn, ptypes, known):
+    def __init__(self, fn, spec, known):
         self.fn = fn; self.name = fn.name
-        a = fn.args
-        if a.vararg or a.kwarg or a.kwonlyargs or a.posonlyargs or a.defaults: refuse(fn, "signature with defaults / *args / **kwargs")
-        if fn.decorator_list: refuse(fn, "decorated function")
-        self.params = [x.arg for x in a.args]
-        if len(self.params) != len(ptypes): refuse(fn, "signature changed (expected %d parameters)" % len(ptypes))
-        self.ptypes = ptypes
-        self.tr = LE({p: (coq_ident(p), t) for p, t in zip(self.params, ptypes)}, known)
+        self.params, self.coqparams, env, attrs, self.defaults = make_sig(fn, spec)
+        self.tr = LE(env, known); self.tr.attrs = attrs
+        self.outer = list(self.coqparams)      # the signature of py_<f> / py_<f>_pre (before the prologue re-types optional parameters)
+        self.prologue = []                     # `let p := ... in` normalisations of parameters in front of everything else
         self.accs = []            # [name]; types in self.tr.env (None until the first append for list accumulators)
         self.exit = None          # None | "break" | "return"
         self.rtype = None
@@ -219,15 +353,32 @@ class Fold:
         if not ts: return "unit"
         return ts[0] if len(ts) == 1 else "(" + " * ".join(ts) + ")"
     # ------------------------------------------------------------------ loop body
-    def body(self, stmts, tail=True):
+    @staticmethod
+    def exit_kind(s):
+        """`if <cond>: break | return <e> | continue` without else -> the exit statement, else None"""
+        if isinstance(s, ast.If) and not s.orelse and len(strip(s.body)) == 1 and isinstance(strip(s.body)[0], (ast.Break, ast.Return, ast.Continue)): return strip(s.body)[0]
+        return None
+    def body(self, stmts, tail=True, top=False):
         stmts = strip(stmts)
         if not stmts: return self.tup()
         s, rest = stmts[0], stmts[1:]
         env = self.tr.env
+        ex = self.exit_kind(s) if top else None
+        if ex is not None and not (isinstance(ex, ast.Continue) and not rest):
+            c, tc = self.tr.expr(s.test)
+            if tc != "bool": refuse(s, "exit test on a non-bool")
+            if isinstance(ex, ast.Break): t = self.tup("true")
+            elif isinstance(ex, ast.Continue): t = self.tup()
+            else:
+                if ex.value is None: refuse(ex, "bare return")
+                e, te = self.tr.expr(ex.value)
+                if self.rtype is not None and self.rtype != te: refuse(ex, "returns of different types inside the loop")
+                self.rtype = te; t = self.tup("(Some %s)" % e)
+            return "(if %s then %s else %s)" % (c, t, self.body(rest, tail, True))
         if isinstance(s, ast.Continue):
             if rest or not tail: refuse(s, "`continue` that is not the last statement of a path through the loop body")
             return self.tup()
-        if isinstance(s, ast.Pass): return self.body(rest, tail)
+        if isinstance(s, ast.Pass): return self.body(rest, tail, top)
         if isinstance(s, ast.Expr) and isinstance(s.value, ast.Call) and isinstance(s.value.func, ast.Attribute) and s.value.func.attr == "append" \
                 and isinstance(s.value.func.value, ast.Name) and len(s.value.args) == 1 and not s.value.keywords:
             acc = s.value.func.value.id
@@ -236,22 +387,30 @@ class Fold:
             if t not in LISTOF: refuse(s, "appended value of unsupported type %s" % t)
             if env[acc][1] is None: env[acc] = (env[acc][0], LISTOF[t])
             elif env[acc][1] != LISTOF[t]: refuse(s, "appended values of different types")
-            return "(let %s := (app %s (cons %s nil)) in %s)" % (env[acc][0], env[acc][0], e, self.body(rest, tail))
+            return "(let %s := (app %s (cons %s nil)) in %s)" % (env[acc][0], env[acc][0], e, self.body(rest, tail, top))
         if isinstance(s, ast.AugAssign) and isinstance(s.target, ast.Name) and isinstance(s.op, (ast.Add, ast.Sub)):
             acc = s.target.id
             if acc not in self.accs or env[acc][1] != "Z": refuse(s, "+= / -= on something that is not an integer accumulator")
             e, t = self.tr.expr(s.value)
             if t != "Z": refuse(s, "+= / -= of a non-integer")
-            return "(let %s := (Z.%s %s %s) in %s)" % (env[acc][0], "add" if isinstance(s.op, ast.Add) else "sub", env[acc][0], e, self.body(rest, tail))
+            return "(let %s := (Z.%s %s %s) in %s)" % (env[acc][0], "add" if isinstance(s.op, ast.Add) else "sub", env[acc][0], e, self.body(rest, tail, top))
+        if isinstance(s, ast.Assign) and len(s.targets) == 1 and isinstance(s.targets[0], ast.Subscript) and isinstance(s.targets[0].value, ast.Name) and s.targets[0].value.id in self.accs:
+            nm = s.targets[0].value.id
+            if env[nm][1] not in ELEM: refuse(s, "item assignment to an accumulator that is not a list")
+            nat = self.tr.index_by_construction(nm, s.targets[0].slice)
+            if nat is None: refuse(s, "item assignment at an index that is not in range by construction")
+            e, t = self.tr.expr(s.value)
+            if t != ELEM[env[nm][1]]: refuse(s, "item assignment of a value of another type")
+            return "(let %s := (py_set %s (Z.of_nat %s) %s) in %s)" % (env[nm][0], env[nm][0], nat, e, self.body(rest, tail, top))
         if isinstance(s, ast.Assign) and len(s.targets) == 1 and isinstance(s.targets[0], ast.Name):
             nm = s.targets[0].id
             e, t = self.tr.expr(s.value)
             if nm in self.accs:
                 if env[nm][1] in ELEM or env[nm][1] is None or env[nm][1] != t: refuse(s, "re-assignment of an accumulator that is not a scalar of the same type")
-                return "(let %s := %s in %s)" % (env[nm][0], e, self.body(rest, tail))
+                return "(let %s := %s in %s)" % (env[nm][0], e, self.body(rest, tail, top))
             if nm in env: refuse(s, "assignment to a parameter / the loop variable / an existing temporary")
             env[nm] = (coq_ident(nm), t); self.tr.locals.add(nm)
-            r = "(let %s := %s in %s)" % (coq_ident(nm), e, self.body(rest, tail))
+            r = "(let %s := %s in %s)" % (coq_ident(nm), e, self.body(rest, tail, top))
             del env[nm]
             return r
         if isinstance(s, ast.If):
@@ -265,7 +424,7 @@ class Fold:
                 r = self.body(s.orelse, last); self.restore(saved); return r
             a, b = self.tr.branches(c, fa, fb)
             v = "(if %s then %s else %s)" % (c, a, b)
-            return v if not rest else self.bind_noflag(v, self.body(rest, tail))
+            return v if not rest else self.bind_noflag(v, self.body(rest, tail, top))
         for cls, what in ((ast.For, "nested loop"), (ast.While, "while loop"), (ast.Return, "return inside the loop other than `if <cond>: return <expr>` as its first statement"),
                           (ast.Break, "break other than `if <cond>: break` as the first statement of the loop body"), (ast.Assert, "assert inside the loop"),
                           (ast.Assign, "assignment to a subscript / attribute / several targets"), (ast.AugAssign, "augmented assignment other than += / -= on an integer accumulator")):
@@ -281,6 +440,22 @@ class Fold:
         if not c: return "(let _ := %s in %s)" % (value, rest)
         if len(c) == 1: return "(let %s := %s in %s)" % (c[0], value, rest)
         return "(let '(%s) := %s in %s)" % (", ".join(c), value, rest)
+    def take_prologue(self, body, pos):
+        """parameter normalisations `if <cond>: <parameter> = <expr>` (typically the application of a default): lets in front of everything"""
+        tr = self.tr; env = tr.env
+        while pos < len(body) and isinstance(body[pos], ast.If) and not body[pos].orelse and len(strip(body[pos].body)) == 1 and isinstance(strip(body[pos].body)[0], ast.Assign) \
+                and len(strip(body[pos].body)[0].targets) == 1 and isinstance(strip(body[pos].body)[0].targets[0], ast.Name) and strip(body[pos].body)[0].targets[0].id in self.params:
+            a = strip(body[pos].body)[0]; nm = a.targets[0].id; cn, t = env[nm]
+            c, tc = tr.expr(body[pos].test); e, te = tr.expr(a.value)
+            if tc != "bool": refuse(body[pos], "if on a non-bool")
+            if t == "OZZ" and te == "ZZ" and c == "(match %s with None => true | Some _ => false end)" % cn:
+                self.prologue.append("let %s := (match %s with Some v_ => v_ | None => %s end) in" % (cn, cn, e)); env[nm] = (cn, "ZZ")
+                self.coqparams = [(x, "ZZ" if x == cn else y) for x, y in self.coqparams]
+            elif te == t and t in ("Z", "ZZ", "bool"):
+                self.prologue.append("let %s := (if %s then %s else %s) in" % (cn, c, e, cn))
+            else: refuse(body[pos], "normalisation of a parameter to another type")
+            pos += 1
+        return pos
     # ------------------------------------------------------------------ the whole function
     def translate(self):
         tr = self.tr; env = tr.env
@@ -323,6 +498,8 @@ class Fold:
                 for j in range(i + 1, len(tr.samelen)):
                     if tr.samelen[i] & tr.samelen[j]: tr.samelen[i] |= tr.samelen.pop(j); merged = True; break
                 if merged: break
+        self.pre0 = tr.cur; tr.cur = []          # the asserts are evaluated before the parameters are normalised
+        pos = self.take_prologue(body, pos)
         if not any(isinstance(x, ast.For) for x in ast.walk(self.fn)):
             # loop-free: guards / temporaries / return in the expression fragment (calls of translated functions, list concatenation, subscripts)
             res, self.rtype = tr.block(body[pos:])
@@ -350,9 +527,19 @@ class Fold:
             else:
                 if isinstance(s.value, ast.Constant) and s.value.value is None: refuse(s, "None as an accumulator")
                 e, t = tr.expr(s.value)
-                if t not in ("Z", "bool", "ZZ"): refuse(s, "accumulator of unsupported type %s" % t)
+                if isinstance(s.value, ast.ListComp) and t in ELEM:
+                    # [c for i in range(len(l))]: a list accumulator of the length of l, updated by `acc[i] = v`
+                    tr.samelen.append({nm, s.value.generators[0].iter.args[0].args[0].id}) if isinstance(s.value.generators[0].iter.args[0].args[0], ast.Name) else None
+                elif t not in ("Z", "bool", "ZZ"): refuse(s, "accumulator of unsupported type %s" % t)
                 inits.append(e); env[nm] = (coq_ident(nm), t)
             self.accs.append(nm); tr.locals.add(nm); pos += 1
+        npro = len(self.prologue)
+        pos = self.take_prologue(body, pos)
+        if len(self.prologue) > npro and (guards or uncond or tr.cur): refuse(self.fn, "normalisation of a parameter after guards / after code that can raise")
+        import re as _re
+        for l in self.prologue[npro:]:
+            for a in self.accs:
+                if _re.search(r"(?<![A-Za-z0-9_.])%s(?![A-Za-z0-9_'])" % _re.escape(coq_ident(a)), l): refuse(self.fn, "normalisation of a parameter that depends on an accumulator")
         if pos >= len(body): refuse(self.fn, "no loop found where one is expected")
         # the loop, optionally under one `if`
         wrap = None; lp = body[pos]
@@ -370,9 +557,29 @@ class Fold:
         if isinstance(it, ast.Name) and env.get(it.id, (0, 0))[1] in ELEM and it.id in self.params:
             tr.loop = dict(kind="elem", var=var); env[var] = (coq_ident(var), ELEM[env[it.id][1]])
             iterlist = env[it.id][0]; vart = COQT[ELEM[env[it.id][1]]]
+        elif isinstance(it, ast.Call) and dotted(it.func) == "range" and not it.keywords and len(it.args) == 3 and not any(isinstance(x, ast.Starred) for x in it.args):
+            # range(a, b, -1): a, a-1, ..., b+1; the loop variable is an integer
+            st_ = it.args[2]
+            if not (isinstance(st_, ast.UnaryOp) and isinstance(st_.op, ast.USub) and isinstance(st_.operand, ast.Constant) and st_.operand.value == 1): refuse(it, "range with a step other than -1")
+            (lo, tl), (hi2, th) = tr.expr(it.args[0]), tr.expr(it.args[1])
+            if tl != "Z" or th != "Z": refuse(it, "range bounds that are not integers")
+            tr.loop = dict(kind="range_down", var=var)
+            iterlist = "(map (fun k_ => Z.sub %s (Z.of_nat k_)) (seq 0 (Z.to_nat (Z.sub %s %s))))" % (lo, lo, hi2)
+            env[var] = (coq_ident(var), "Z"); vart = "Z"
+        elif isinstance(it, ast.Call) and dotted(it.func) == "range" and not it.keywords and ((len(it.args) == 1 and isinstance(it.args[0], ast.Starred)) or
+                (len(it.args) == 2 and not any(isinstance(x, ast.Starred) for x in it.args) and not (isinstance(it.args[0], ast.Constant) and it.args[0].value == 0))):
+            # range(*pair) = range(pair[0], pair[1]);  range(a, b) with integer expressions: the loop variable is an integer
+            if len(it.args) == 1:
+                pr, tp_ = tr.expr(it.args[0].value)
+                if tp_ != "ZZ": refuse(it, "range(*x) with x not a pair")
+                lo, hi2 = "(fst %s)" % pr, "(snd %s)" % pr
+            else:
+                (lo, tl), (hi2, th) = tr.expr(it.args[0]), tr.expr(it.args[1])
+                if tl != "Z" or th != "Z": refuse(it, "range bounds that are not integers")
+            tr.loop = dict(kind="range_zz", var=var)
+            iterlist = "(map (fun k_ => Z.add %s (Z.of_nat k_)) (seq 0 (Z.to_nat (Z.sub %s %s))))" % (lo, hi2, lo)
+            env[var] = (coq_ident(var), "Z"); vart = "Z"
         elif isinstance(it, ast.Call) and dotted(it.func) == "range" and not it.keywords and all(not isinstance(x, ast.Starred) for x in it.args) and len(it.args) in (1, 2):
-            if len(it.args) == 2:
-                if not (isinstance(it.args[0], ast.Constant) and it.args[0].value == 0 and not isinstance(it.args[0].value, bool)): refuse(it, "range(a, b) with a lower bound other than the literal 0")
             hi = it.args[-1]; base = None; k = 0
             def is_len(z): return isinstance(z, ast.Call) and dotted(z.func) == "len" and len(z.args) == 1 and isinstance(z.args[0], ast.Name) and z.args[0].id in self.params and env[z.args[0].id][1] in ELEM
             if is_len(hi): base = hi.args[0].id
@@ -392,25 +599,21 @@ class Fold:
         lb = strip(lp.body)
         if wrap is not None: wrap_outer = tr.cur; tr.cur = []
         outer_conds = tr.cur; tr.cur = []        # conditions of the loop body: for every iteration
-        # exit at the top of the body
-        exit_c = exit_e = None
-        if lb and isinstance(lb[0], ast.If) and not lb[0].orelse and len(strip(lb[0].body)) == 1 and isinstance(strip(lb[0].body)[0], (ast.Break, ast.Return)):
-            tr.in_loop = True
-            exit_c, tc = tr.expr(lb[0].test)
-            if tc != "bool": refuse(lb[0], "exit test on a non-bool")
-            st = strip(lb[0].body)[0]
-            if isinstance(st, ast.Break): self.exit = "break"
-            else:
-                if st.value is None: refuse(st, "bare return")
-                exit_e, self.rtype = tr.expr(st.value); self.exit = "return"
-            lb = lb[1:]
+        # exits `if c: break` / `if c: return e` among the top-level statements of the body (a `stopped` flag / an option in the state)
+        kinds = set(type(self.exit_kind(x)).__name__ for x in lb if self.exit_kind(x) is not None and not isinstance(self.exit_kind(x), ast.Continue))
+        if len(kinds) > 1: refuse(lp, "both `break` and `return` in one loop")
+        if kinds: self.exit = "break" if kinds == {"Break"} else "return"
         tr.in_loop = True
-        stepbody = self.body(lb)
+        stepbody = self.body(lb, True, True)
         tr.in_loop = False
         loop_conds = tr.cur; tr.cur = outer_conds
         del env[var]; loopinfo = tr.loop; tr.loop = None
         # post-processing and return
-        post, tp = tr.block(body[pos + 1:])
+        tail_ = strip(body[pos + 1:]); raises = False
+        if len(tail_) == 1 and isinstance(tail_[0], ast.Raise):
+            if self.exit != "return" or self.rtype not in ("Z", "bool", "ZZ"): refuse(tail_[0], "raise after a loop that does not return a scalar from inside")
+            raises = True; post, tp = ({"Z": "(0)%Z", "bool": "false", "ZZ": "((0)%Z, (0)%Z)"}[self.rtype], self.rtype)
+        else: post, tp = tr.block(body[pos + 1:])
         if self.rtype is not None and tp != self.rtype: refuse(self.fn, "return inside the loop and final return of different types")
         self.rtype = tp
         for c, e, te in guards:
@@ -419,13 +622,13 @@ class Fold:
         S = self.state_type()
         v = coq_ident(var)
         if self.exit == "break":
-            step = self.bind_flag("stop_", "(if stop_ then st_ else (if %s then %s else %s))" % (exit_c, self.tup("true"), stepbody))
+            step = self.bind_flag("stop_", "(if stop_ then st_ else %s)" % stepbody)
         elif self.exit == "return":
-            step = self.bind_flag("ret_", "(match ret_ with Some _ => st_ | None => (if %s then %s else %s) end)" % (exit_c, self.tup("(Some %s)" % exit_e), stepbody))
+            step = self.bind_flag("ret_", "(match ret_ with Some _ => st_ | None => %s end)" % stepbody)
         else:
             step = self.bind_flag(None, stepbody)
         init = self.tup_of(([] if not self.exit else ["false" if self.exit == "break" else "None"]) + inits)
-        sig = self.sig()
+        sig = self.sig(inner=True)
         defs = ["Definition py_%s_step %s (st_ : %s) (%s : %s) : %s := %s." % (self.name, sig, S, v, vart, S, step)]
         fold = "(fold_left (py_%s_step %s) %s %s)" % (self.name, self.args(), iterlist, init)
         if wrap is not None: fold = "(if %s then %s else %s)" % (wrap, fold, init)
@@ -433,6 +636,7 @@ class Fold:
         res = self.bind_flag("stop_" if self.exit == "break" else "ret_" if self.exit else None, post, fold)
         for c, e, _ in reversed(guards): res = "(if %s then %s else %s)" % (c, e, res)
         late = tr.cur                       # post-processing conditions were appended to outer_conds (= tr.cur)
+        if raises: late.append("(match %s with Some _ => true | None => false end)" % (self.bind_flag("ret_", "ret_", fold)))      # the final `raise` is not reached
         lc = conj(loop_conds)
         if lc != "true":
             lc = "(forallb (fun %s => %s) %s)" % (v, lc, iterlist)
@@ -451,8 +655,13 @@ class Fold:
         if not c: return "(let _ := %s in %s)" % (value, rest)
         if len(c) == 1: return "(let %s := %s in %s)" % (c[0], value, rest)
         return "(let '(%s) := %s in %s)" % (", ".join(c), value, rest)
-    def sig(self): return " ".join(["(%s : Z)" % i for i in self.tr.infs] + ["(%s : %s)" % (coq_ident(p), COQT[t]) for p, t in zip(self.params, self.ptypes)])
-    def args(self): return " ".join(self.tr.infs + [coq_ident(p) for p in self.params])
+    def sig(self, inner=False):
+        ps = self.coqparams if inner else self.outer
+        return " ".join(["(%s : Z)" % i for i in self.tr.infs] + ["(%s : %s)" % (c, COQT[t]) for c, t in ps])
+    def args(self): return " ".join(self.tr.infs + [c for c, _ in self.coqparams])
+    def wrap_prologue(self, term):
+        for l in reversed(self.prologue): term = "(%s %s)" % (l, term)
+        return term
     def finish(self, res, defs, pre=None):
         import re
         cond = conj(pre if pre is not None else self.tr.cur)
@@ -461,44 +670,276 @@ class Fold:
                 raise Refuse("%s: the in-range condition of a subscript depends on the temporary / accumulator `%s` (state-dependent indices are not translated)" % (self.name, nm))
         sig = self.sig()
         out = list(defs)
+        res = self.wrap_prologue(res); cond = self.wrap_prologue(cond)
+        c0 = conj(getattr(self, "pre0", []))
+        if c0 != "true": cond = c0 if cond == "true" else "(andb %s %s)" % (c0, cond)
+        self.pre_is_true = (cond == "true")
         out.append("Definition py_%s %s : %s := %s." % (self.name, sig, COQT[self.rtype], res))
         out.append("Definition py_%s_pre %s : bool := %s." % (self.name, sig, cond))
+        if self.defaults:
+            dn = [coq_ident(n) for n, _ in self.defaults]; dv = dict((coq_ident(n), v) for n, v in self.defaults)
+            req = [(c, t) for c, t in self.outer if c not in dn]
+            dsig = " ".join(["(%s : Z)" % i for i in self.tr.infs] + ["(%s : %s)" % (c, COQT[t]) for c, t in req])
+            dargs = " ".join(self.tr.infs + [dv.get(c, c) for c, _ in self.outer])
+            out.append("Definition py_%s_dflt %s : %s := (py_%s %s).      (* the call with the default arguments *)" % (self.name, dsig, COQT[self.rtype], self.name, dargs))
+            out.append("Definition py_%s_dflt_pre %s : bool := (py_%s_pre %s)." % (self.name, dsig, self.name, dargs))
         return out
 
 
-# function -> (file, parameter types, required).  Required functions must translate (otherwise the whole translator refuses: a model is
-# bridged to them); the others are attempted on every run and the construct that does not fit is recorded as a comment in Loops.v.
+class WFn:
+    """Functions with `while` loops (and straight-line code around them), translated in CHECKED form: the result is a `py_run`:
+       py_Done v, py_OutOfFuel, or py_Raises k as soon as a subscript is out of range (1), an assert fails (3), a float division has a
+       zero divisor (4), .index() finds nothing (5).  Every `while` becomes a Fixpoint on an explicit fuel parameter whose state is the
+       tuple of ALL local variables defined so far; the body is straight-line code (assignments, +=, -=, append, `l[i] = v`, assert,
+       if/elif/else) with an optional first statement `if c: break`; no continue, no nested loop, no return inside the loop."""
+    def __init__(self, fn, spec, known):
+        self.fn = fn; self.name = fn.name
+        self.params, self.coqparams, env, attrs, self.defaults = make_sig(fn, spec)
+        if self.defaults: refuse(fn, "default arguments in a function with a while loop")
+        self.tr = LE(env, known); self.tr.attrs = attrs
+        self.locals = []           # local variables of the function, in the order of their first assignment
+        self.loops = {}            # id(While node) -> (name, state variables)
+        self.defs = []
+        self.rtype = None
+    # ---- helpers
+    def sig(self): return " ".join("(%s : %s)" % (c, COQT[t]) for c, t in self.coqparams)
+    def args(self): return " ".join(c for c, _ in self.coqparams)
+    def check(self, inner):
+        """guard `inner` by the conditions collected since the last call, in the order of evaluation"""
+        for c, k in reversed(self.tr.take()): inner = "(if %s then %s else (py_Raises %d%%N))" % (c, inner, k)
+        return inner
+    def tup(self, names):
+        c = [self.tr.env[n][0] for n in names]
+        return "tt" if not c else c[0] if len(c) == 1 else "(" + ", ".join(c) + ")"
+    def pat(self, names, value, rest):
+        c = [self.tr.env[n][0] for n in names]
+        if not c: return "(let _ := %s in %s)" % (value, rest)
+        if len(c) == 1: return "(let %s := %s in %s)" % (c[0], value, rest)
+        return "(let '(%s) := %s in %s)" % (", ".join(c), value, rest)
+    def stype(self, names):
+        ts = []
+        for n in names:
+            t = self.tr.env[n][1]
+            if t is None: raise Refuse("%s: the list %s is never appended to (its element type is unknown)" % (self.name, n))
+            ts.append(COQT[t])
+        return "unit" if not ts else ts[0] if len(ts) == 1 else "(" + " * ".join(ts) + ")"
+    # ---- one simple statement -> (text of `let .. in`, None) ; returns a function wrapping the continuation
+    def simple(self, s, in_body):
+        """assignment-like statements; returns k such that k(rest_term) is the term for `s; rest`"""
+        tr = self.tr; env = tr.env
+        if isinstance(s, ast.Assert):
+            if s.msg is not None: refuse(s, "assert with a message")
+            c, tc = tr.expr(s.test)
+            if tc != "bool": refuse(s, "assert on a non-bool")
+            pre = tr.take()
+            def k(rest, c=c, pre=pre):
+                t = "(if %s then %s else (py_Raises 3%%N))" % (c, rest)
+                for cc, kk in reversed(pre): t = "(if %s then %s else (py_Raises %d%%N))" % (cc, t, kk)
+                return t
+            return k
+        if isinstance(s, ast.Expr) and isinstance(s.value, ast.Call) and isinstance(s.value.func, ast.Attribute) and s.value.func.attr == "append" \
+                and isinstance(s.value.func.value, ast.Name) and len(s.value.args) == 1 and not s.value.keywords:
+            acc = s.value.func.value.id
+            if acc not in self.locals or (env[acc][1] is not None and env[acc][1] not in ELEM): refuse(s, "append to something that is not a local list")
+            e, t = tr.expr(s.value.args[0])
+            if t not in LISTOF: refuse(s, "appended value of unsupported type %s" % t)
+            if env[acc][1] is None: env[acc] = (env[acc][0], LISTOF[t])
+            elif env[acc][1] != LISTOF[t]: refuse(s, "appended values of different types")
+            return self.letk(env[acc][0], "(app %s (cons %s nil))" % (env[acc][0], e))
+        if isinstance(s, ast.AugAssign) and isinstance(s.target, ast.Name) and isinstance(s.op, (ast.Add, ast.Sub)):
+            nm = s.target.id
+            if nm not in self.locals or env[nm][1] != "Z": refuse(s, "+= / -= on something that is not a local integer")
+            e, t = tr.expr(s.value)
+            if t != "Z": refuse(s, "+= / -= of a non-integer")
+            return self.letk(env[nm][0], "(Z.%s %s %s)" % ("add" if isinstance(s.op, ast.Add) else "sub", env[nm][0], e))
+        if isinstance(s, ast.Assign) and len(s.targets) == 1 and isinstance(s.targets[0], ast.Subscript) and isinstance(s.targets[0].value, ast.Name):
+            nm = s.targets[0].value.id
+            if nm not in self.locals or env[nm][1] not in ELEM: refuse(s, "item assignment to something that is not a local list")
+            i, ti = tr.expr(s.targets[0].slice); e, te = tr.expr(s.value)
+            if ti != "Z" or te != ELEM[env[nm][1]]: refuse(s, "item assignment with a non-integer index / a value of another type")
+            tr.add("(py_index_ok %s %s)" % (env[nm][0], i), 1)
+            return self.letk(env[nm][0], "(py_set %s %s %s)" % (env[nm][0], i, e))
+        if isinstance(s, ast.Assign) and len(s.targets) == 1 and isinstance(s.targets[0], ast.Name):
+            nm = s.targets[0].id
+            if isinstance(s.value, ast.List) and not s.value.elts: e, t = "nil", None
+            else:
+                if isinstance(s.value, ast.Constant) and s.value.value is None: refuse(s, "None as a value")
+                e, t = tr.expr(s.value)
+                if t not in COQT or t in ("idx", "OZZ"): refuse(s, "value of unsupported type %s" % t)
+            if nm in env:
+                if nm in self.params or (env[nm][1] is not None and t is not None and env[nm][1] != t): refuse(s, "re-assignment of a parameter / of a name with another type")
+                if nm not in self.locals and not in_body: refuse(s, "re-assignment")
+            elif not in_body: self.locals.append(nm)
+            k = self.letk(coq_ident(nm), e)
+            if nm not in env or env[nm][1] is None: env[nm] = (coq_ident(nm), t)
+            return k
+        return None
+    def letk(self, name, value):
+        pre = self.tr.take()
+        def k(rest):
+            t = "(let %s := %s in %s)" % (name, value, rest)
+            for cc, kk in reversed(pre): t = "(if %s then %s else (py_Raises %d%%N))" % (cc, t, kk)
+            return t
+        return k
+    # ---- loop body: -> term of type py_run S
+    def body(self, stmts, state):
+        stmts = strip(stmts)
+        if not stmts: return "(py_Done %s)" % self.tup(state)
+        s, rest = stmts[0], stmts[1:]
+        tr = self.tr; env = tr.env
+        k = self.simple(s, True)
+        if k is not None:
+            new_temp = isinstance(s, ast.Assign) and isinstance(s.targets[0], ast.Name) and s.targets[0].id not in state
+            r = k(self.body(rest, state))
+            if new_temp and False: pass
+            return r
+        if isinstance(s, ast.If):
+            c, tc = tr.expr(s.test)
+            if tc != "bool": refuse(s, "if on a non-bool (truthiness is not modelled)")
+            pre = tr.take()
+            saved = dict(env)
+            a = self.body(s.body, state); self.forget(saved)
+            b = self.body(s.orelse, state); self.forget(saved)
+            t = "(if %s then %s else %s)" % (c, a, b)
+            if rest: t = "(py_bind %s (fun st_ => %s))" % (t, self.pat(state, "st_", self.body(rest, state)))
+            for cc, kk in reversed(pre): t = "(if %s then %s else (py_Raises %d%%N))" % (cc, t, kk)
+            return t
+        for cls, what in ((ast.For, "nested loop"), (ast.While, "nested loop"), (ast.Return, "return inside a while loop"), (ast.Continue, "continue in a while loop"),
+                          (ast.Break, "break other than `if <cond>: break` as the first statement of the loop body")):
+            if isinstance(s, cls): refuse(s, what)
+        refuse(s, "unsupported statement in the loop body")
+    def forget(self, saved):
+        for k in list(self.tr.env):
+            if k not in saved: del self.tr.env[k]
+    # ---- function level: -> term of type py_run R
+    def seq(self, stmts):
+        stmts = strip(stmts)
+        if not stmts: raise Refuse("%s: a path falls off the end of the function (implicit None)" % self.name)
+        s, rest = stmts[0], stmts[1:]
+        tr = self.tr; env = tr.env
+        if isinstance(s, ast.Return):
+            if s.value is None: refuse(s, "bare return")
+            if rest: refuse(rest[0], "statement after return")
+            e, t = tr.expr(s.value)
+            if t not in COQT or t in ("idx", "OZZ"): refuse(s, "result of unsupported type")
+            if self.rtype is not None and self.rtype != t: refuse(s, "returns of different types")
+            self.rtype = t
+            return self.check("(py_Done %s)" % e)
+        k = self.simple(s, False)
+        if k is not None: return k(self.seq(rest))
+        if isinstance(s, ast.If):
+            if not strip(s.body) and not strip(s.orelse):
+                c, tc = tr.expr(s.test)              # only logging in the branches: nothing to do, but the test must be in the fragment and harmless
+                if tr.take(): refuse(s, "logging-only if whose test can raise")
+                return self.seq(rest)
+            c, tc = tr.expr(s.test)
+            if tc != "bool": refuse(s, "if on a non-bool (truthiness is not modelled)")
+            pre = tr.take()
+            saved_env = dict(env); saved_loc = list(self.locals)
+            a = self.seq(list(s.body) + ([] if X.always_returns(s.body) else list(rest)))
+            la = list(self.locals); tr.env = env = dict(saved_env); self.locals = list(saved_loc)
+            b = self.seq(list(s.orelse) + ([] if X.always_returns(s.orelse) else list(rest)))
+            t = "(if %s then %s else %s)" % (c, a, b)
+            for cc, kk in reversed(pre): t = "(if %s then %s else (py_Raises %d%%N))" % (cc, t, kk)
+            return t
+        if isinstance(s, ast.While):
+            if s.orelse: refuse(s, "while ... else")
+            state = list(self.locals)
+            key = id(s)
+            lb = strip(s.body)
+            if key not in self.loops:
+                lname = "py_%s_loop%d" % (self.name, len(self.loops) + 1)
+                c, tc = tr.expr(s.test)
+                if tc != "bool": refuse(s, "while on a non-bool (truthiness is not modelled)")
+                cpre = tr.take()
+                brk = None
+                if lb and Fold.exit_kind(lb[0]) is not None:
+                    if not isinstance(Fold.exit_kind(lb[0]), ast.Break): refuse(lb[0], "return / continue inside a while loop")
+                    bc, bt = tr.expr(lb[0].test)
+                    if bt != "bool": refuse(lb[0], "break test on a non-bool")
+                    brk = (bc, tr.take()); lb = lb[1:]
+                saved = dict(env)
+                bterm = self.body(lb, state); self.forget(saved)
+                step = "(py_bind %s (%s %s fuel_'))" % (bterm, lname, self.args())
+                if brk is not None:
+                    step = "(if %s then (py_Done st_) else %s)" % (brk[0], step)
+                    for cc, kk in reversed(brk[1]): step = "(if %s then %s else (py_Raises %d%%N))" % (cc, step, kk)
+                t = "(if %s then %s else (py_Done st_))" % (c, step)
+                for cc, kk in reversed(cpre): t = "(if %s then %s else (py_Raises %d%%N))" % (cc, t, kk)
+                S = self.stype(state)
+                self.defs.append("Fixpoint %s %s (fuel_ : nat) (st_ : %s) {struct fuel_} : py_run %s := match fuel_ with O => py_OutOfFuel | Datatypes.S fuel_' => %s end."
+                                 % (lname, self.sig(), S, S, self.pat(state, "st_", t)))
+                self.loops[key] = (lname, state)
+            lname, st0 = self.loops[key]
+            if st0 != state: refuse(s, "the loop is reached with different sets of local variables")
+            return "(py_bind (%s %s fuel_ %s) (fun st_ => %s))" % (lname, self.args(), self.tup(state), self.pat(state, "st_", self.seq(rest)))
+        for cls, what in ((ast.For, "for loop in a function with a while loop"),):
+            if isinstance(s, cls): refuse(s, what)
+        refuse(s, "unsupported statement")
+    def translate(self):
+        body = strip(self.fn.body)
+        res = self.seq(body)
+        out = list(self.defs)
+        out.append("Definition py_%s (fuel_ : nat) %s : py_run %s := %s." % (self.name, self.sig(), COQT[self.rtype], res))
+        self.pre_is_true = True
+        return out
+
+
+# (file, function or Class.method, specification, required).  Required functions must translate (otherwise the whole translator refuses: a
+# model is bridged to them); the others are attempted on every run and the construct that does not fit is recorded as a comment in Loops.v.
+def P_(*types, **kw):
+    d = dict(params=list(types)); d.update(kw); return d
+FIXER = {"params.max_fake_terminal_exon_len": "Z"}
 TARGETS = [
-    ("src/common.py", "intervals_total_length", ["LZZ"], True),
-    ("src/common.py", "junctions_from_blocks", ["LZZ"], True),
-    ("src/common.py", "get_exons", ["ZZ", "LZZ"], True),
-    ("src/common.py", "correct_bam_coords", ["LZZ"], True),
-    ("src/common.py", "count_both_present_features", ["LZ", "LZ"], True),
-    ("src/common.py", "all_features_present", ["LZ", "LZ"], True),
-    ("src/common.py", "has_inconsistent_features", ["LZ", "LZ"], True),
-    ("src/common.py", "mask_profile", ["LZ", "LZ"], True),
-    ("src/common.py", "get_blocks_from_profile", ["LZZ", "LZ"], True),
-    ("src/polya_verification.py", "shift_polya", ["LZZ", "Z", "Z"], True),
-    ("src/polya_verification.py", "shift_polyt", ["LZZ", "Z", "Z"], True),
-    ("src/common.py", "concat_gapless_blocks", ["LZZ", "LZZ"], False),
-    ("src/common.py", "get_exon", ["ZZ", "LZZ", "Z"], False),
-    ("src/common.py", "get_following_exon_from_junctions", ["ZZ", "LZZ", "Z"], True),
-    ("src/common.py", "get_preceding_exon_from_junctions", ["ZZ", "LZZ", "Z"], True),
-    ("src/common.py", "is_subprofile", ["LZ", "LZ"], False),
-    ("src/common.py", "difference_in_present_features", ["LZ", "LZ", "Z", "ZZ"], False),
-    ("src/common.py", "equal_profiles_in_range", ["LZ", "LZ", "ZZ"], False),
-    ("src/common.py", "find_matching_positions", ["LZ", "LZ"], False),
-    ("src/common.py", "has_overlapping_features", ["LZ", "LZ", "ZZ"], False),
-    ("src/common.py", "left_truncated", ["LZ", "LZ"], False),
-    ("src/common.py", "right_truncated", ["LZ", "LZ"], False),
-    ("src/common.py", "sum_intervals_to_point", ["LZZ", "Z"], False),
-    ("src/common.py", "sum_intervals_from_point", ["LZZ", "Z"], False),
-    ("src/common.py", "truncate_read_to_polya", ["LZZ", "Z", "Z"], False),
+    ("src/common.py", "intervals_total_length", P_("LZZ"), True),
+    ("src/common.py", "junctions_from_blocks", P_("LZZ"), True),
+    ("src/common.py", "get_exons", P_("ZZ", "LZZ"), True),
+    ("src/common.py", "correct_bam_coords", P_("LZZ"), True),
+    ("src/common.py", "count_both_present_features", P_("LZ", "LZ"), True),
+    ("src/common.py", "all_features_present", P_("LZ", "LZ"), True),
+    ("src/common.py", "has_inconsistent_features", P_("LZ", "LZ"), True),
+    ("src/common.py", "mask_profile", P_("LZ", "LZ"), True),
+    ("src/common.py", "get_blocks_from_profile", P_("LZZ", "LZ"), True),
+    ("src/polya_verification.py", "shift_polya", P_("LZZ", "Z", "Z"), True),
+    ("src/polya_verification.py", "shift_polyt", P_("LZZ", "Z", "Z"), True),
+    ("src/common.py", "get_following_exon_from_junctions", P_("ZZ", "LZZ", "Z"), True),
+    ("src/common.py", "get_preceding_exon_from_junctions", P_("ZZ", "LZZ", "Z"), True),
+    # ---- round 3: while fragment, small extensions, methods
+    ("src/common.py", "get_exon", P_("ZZ", "LZZ", "Z"), True),
+    ("src/common.py", "sum_intervals_to_point", P_("LZZ", "Z"), True),
+    ("src/common.py", "sum_intervals_from_point", P_("LZZ", "Z"), True),
+    ("src/common.py", "read_coverage_fraction", P_("LZZ", "LZZ"), True),
+    ("src/common.py", "jaccard_similarity", P_("LZZ", "LZZ"), True),
+    ("src/common.py", "merge_ranges", P_("LZZ", "LZZ"), True),
+    ("src/common.py", "extra_exon_percentage", P_("ZZ", "LZZ"), False),
+    ("src/common.py", "equal_profiles_in_range", P_("LZ", "LZ", "ZZ"), True),
+    ("src/common.py", "has_overlapping_features", P_("LZ", "LZ", "OZZ"), True),
+    ("src/common.py", "difference_in_present_features", P_("LZ", "LZ", "Z", "OZZ"), True),
+    ("src/common.py", "find_matching_positions", P_("LZ", "LZ"), True),
+    ("src/common.py", "rindex", P_("LZ", "Z"), True),
+    ("src/common.py", "left_truncated", P_("LZ", "LZ"), True),
+    ("src/common.py", "right_truncated", P_("LZ", "LZ"), True),
+    ("src/polya_verification.py", "PolyAFixer.count_polya_exons", P_("LZZ", "Z", self=FIXER), True),
+    ("src/polya_verification.py", "PolyAFixer.count_polyt_exons", P_("LZZ", "Z", self=FIXER), True),
+    ("src/polya_verification.py", "PolyAFixer.correct_read_info", P_("LZZ", {"internal_polya_pos": "Z", "internal_polyt_pos": "Z"}, self=FIXER), True),
+    ("src/common.py", "concat_gapless_blocks", P_("LZZ", "LZZ"), False),
+    ("src/common.py", "is_subprofile", P_("LZ", "LZ"), False),
+    ("src/common.py", "truncate_read_to_polya", P_("LZZ", "Z", "Z"), False),
+    ("src/multimap_resolver.py", "MultimapResolver.find_duplicates", P_("LZ", "LZ"), False),
+    ("src/multimap_resolver.py", "MultimapResolver.select_noninformative", P_("LZ", "LZ"), False),
+    ("src/alignment_processor.py", "InMemoryAlignmentStorage.fill_index", P_(self={}), False),
+    ("src/alignment_processor.py", "AbstractAlignmentStorage.add_alignment", P_("Z", {"reference_start": "Z", "reference_end": "Z"}, self={}), False),
 ]
+
+def find_function(tree, name):
+    if "." in name:
+        cname, m = name.split(".")
+        return X.method(X.top_class(tree, cname), m)
+    return X.top_func(tree, name)
 
 def main():
     out = ["(* GENERATED by translate_loops.py from %s -- do not edit *)" % REPO,
-           "From Coq Require Import ZArith List Bool. From IQ.gen Require Import Prims. Import ListNotations.",
+           "From Coq Require Import ZArith NArith QArith List Bool. From IQ.gen Require Import Prims. Import ListNotations.",
            "(* Python's l[i] with negative wrap-around (total: the default is returned outside the list) and its in-range condition *)"] + SUPPORT + [""]
     trees = {}
     known = {}
@@ -508,18 +949,24 @@ def main():
     PRIM_RESULT = {"interval_len": "Z", "overlaps": "bool", "contains": "bool", "left_of": "bool", "intersection_len": "Z", "equal_ranges": "bool"}
     known = {k: (v[0], v[1], PRIM_RESULT[k], 0) for k, v in known.items() if k in PRIM_RESULT}
     refused = []
-    for path, name, ptypes, required in TARGETS:
-        if path not in trees: trees[path] = X.parse(path)
+    for path, name, spec, required in TARGETS:
         try:
-            fn = X.top_func(trees[path], name)
-            f = Fold(fn, ptypes, known)
+            if path not in trees: trees[path] = X.parse(path)
+            fn = find_function(trees[path], name)
+            has_while = any(isinstance(x, ast.While) for x in ast.walk(fn))
+            f = (WFn if has_while else Fold)(fn, spec, known)
             defs = f.translate()
         except Refuse as e:
             if required: raise Refuse("%s (required): %s" % (name, e))
             refused.append((name, str(e))); continue
         out.append("(* %s:%s *)" % (path, name))
         out += defs + [""]
-        known[name] = ("py_" + name, ptypes, f.rtype, len(f.tr.infs))
+        if not has_while:
+            key = "self." + fn.name if "self" in spec else fn.name
+            ptypes = [t for t in spec["params"]]
+            if all(isinstance(t, str) for t in ptypes):
+                selfargs = [c for c, _ in f.coqparams if c.startswith("self_")]
+                known[key] = ("py_" + fn.name, ptypes, f.rtype, len(f.tr.infs), selfargs, None if f.pre_is_true else "py_%s_pre" % fn.name)
     out.append("(* functions of the candidate list that do not fit the fragment, and the first construct that does not fit:")
     for name, why in refused: out.append("   %s: %s" % (name, why.replace("*)", "* )").replace("(*", "( *").replace("\n", " ").replace(chr(34), chr(39))))
     out.append("*)")
